@@ -915,6 +915,7 @@ CONTENT_SKIP = ("res", "version", "type", "length", "padding", "strs", "is_unkno
 
 def oracle_C13(ctx, i):
     I, meta = ctx.I[i], ctx.metas[i]
+    if meta.get("op") == "parse": return again_failures(I)     # padded witnesses of the corpus
     if meta.get("op") != "pad": return []
     b, n = meta["bytes"], meta["n"]
     if I.get("a.res") != "ok" or len(b) < 4 or b[0] & 0x20 or n % 4 or not 4 <= n <= 252: return []
